@@ -123,7 +123,7 @@ def placement(msgs):
 
 
 def oracle_c02(case, obs):
-    bad = note_failures(obs, ("logging_raised", "foreign_exception"))
+    bad = note_failures(obs, ("logging_raised", "foreign_exception", "delivered_message_changed"))
     if bad:
         return bad
     return placement(obs["raw"]["1"])
@@ -148,7 +148,7 @@ def expected_extractor(case, cid):
 
 
 def oracle_c03(case, obs):
-    bad = note_failures(obs, ("logging_raised", "foreign_exception"))
+    bad = note_failures(obs, ("logging_raised", "foreign_exception", "delivered_message_changed"))
     if bad:
         return bad
     msgs = obs["raw"]["1"]
@@ -274,7 +274,7 @@ def oracle_c04(case, obs):
 
 # ---------------------------------------------------------------- C07
 def oracle_c07(case, obs):
-    bad = note_failures(obs, ("logging_raised", "foreign_exception", "caller_dict_mutated"))
+    bad = note_failures(obs, ("logging_raised", "foreign_exception", "caller_dict_mutated", "delivered_message_changed"))
     if bad:
         return bad
     want = static_outcome(case["prog"])
@@ -285,7 +285,7 @@ def oracle_c07(case, obs):
 
 # ---------------------------------------------------------------- C08
 def oracle_c08(case, obs):
-    bad = note_failures(obs, ("logging_raised", "foreign_exception", "render_mismatch"))
+    bad = note_failures(obs, ("logging_raised", "foreign_exception", "render_mismatch", "delivered_message_changed"))
     if bad:
         return bad
     dests = obs["dests"]
@@ -349,7 +349,7 @@ def ref_serfn(f, v):
 
 
 def oracle_c13(case, obs):
-    bad = note_failures(obs, ("logging_raised", "foreign_exception", "caller_dict_mutated"))
+    bad = note_failures(obs, ("logging_raised", "foreign_exception", "caller_dict_mutated", "delivered_message_changed"))
     if bad:
         return bad
     raw = obs["raw"]["1"]
